@@ -17,7 +17,7 @@ RULE = ("dedicated malformed streams: (a) arbitrary byte strings (random bytes, 
         "(chan, func, complex, map[int]T, *interface{}, **T, non-pointers) next to supported ones, and 11 hand-written types with blank, "
         "unexported and caseless-named fields, embedded unexported structs, interface fields with methods; (e) SetChild between relatives over several configs (the receiver, its parents, a config the name leads through below the receiver, a config holding the receiver through a second attachment, a former parent with a stale link), every config dumped after every step; (f) pre-filled interface{} fields, map entries and list elements holding structs by value and by pointer (kind ifaceheld). Observable: returned / error / PANIC "
         "/ FATAL (process death, incl. stack overflow under a 64 MiB limit and memory under a 1 GiB GOMEMLIMIT) / timeout / leaked "
-        "goroutines. Oracle: every call returns. Modelled kinds are also compared with the Lean model. Non-trivial: the input contains "
+        "goroutines; recursive Go target types (kind rectarget) receiving every shape of setting, incl. primitives where a list of lists is asked for. Oracle: every call returns. Modelled kinds are also compared with the Lean model. Non-trivial: the input contains "
         "a structural character or is not valid in its format. Distinct by (entry point, input class, outcome).")
 TRUSTED_BASE = ["Lean 4 kernel", "extractor: bounds guards of path.go/ucfg.go, panic-site inventory vs extract/sites.expected.json",
                 "the worker's recover / watchdog / stack and memory limits", "third-party decoders are exercised, not modelled"]
@@ -25,7 +25,7 @@ ASSUMPTIONS = ["MaxIdx itself is a trusted configuration value (a caller asking 
 
 
 def normalize_result(case, res):
-    if case.get("k") in ("load", "oddtarget", "ifaceheld"):
+    if case.get("k") in ("load", "oddtarget", "ifaceheld", "rectarget"):
         if isinstance(res, dict) and ("panic" in res or "fatal" in res or "leakedGoroutines" in res):
             return res
         return {"unmodelled": True}
@@ -269,6 +269,14 @@ def odd_cases(rng, tier):
                 continue
             yield {"k": "oddtarget", "name": nm, "from": src, "copts": [], "uopts": [], "_tag": "oddtargets", "_nt": True,
                    "_sig": "odd|%s|%s" % (nm, shape_of(src))}
+    # recursive target types (struct through a pointer, map of itself, list of itself, struct through slices and maps):
+    # any setting, also a primitive where a list of lists is asked for (a primitive reads as a list of itself), returns
+    rvals = [U(5), S("x"), None, B(True), A([]), A([S("x")]), A([A([]), U(1)]), A([A([A([])])]), M([]), M([("k", U(1))]), M([("k", M([]))]),
+             M([("n", U(1)), ("b", M([("n", U(2))]))]), M([("kids", A([M([("n", U(1))]), U(2)])), ("by", M([("k", U(3))]))]), M([("b", U(1))])]
+    for key in ["a", "m", "l", "s"]:
+        for v in rvals:
+            yield {"k": "rectarget", "from": M([(key, v), ("other", U(1))]), "copts": [], "merges": [], "uopts": [],
+                   "_tag": "rectargets", "_nt": True, "_sig": "rec|%s|%s" % (key, shape_of(v))}
 
 
 def check_facts(facts):
@@ -302,7 +310,22 @@ def normalize_pair(case, impl, model):
     return normalize_result(case, model), normalize_result(case, impl)
 
 
+def wf_data(d):
+    """a well-formed datum of the line protocol"""
+    if d is None:
+        return True
+    if not isinstance(d, dict):
+        return False
+    if "m" in d:
+        return isinstance(d["m"], list) and all(isinstance(e, list) and len(e) == 2 and isinstance(e[0], str) and wf_data(e[1]) for e in d["m"])
+    if "a" in d:
+        return isinstance(d["a"], list) and all(wf_data(x) for x in d["a"])
+    return any(k in d for k in ("u", "i", "s", "b", "f"))
+
+
 def fix_candidate(cand, base):
+    if cand.get("k") == "rectarget":
+        return cand if wf_data(cand.get("from")) and isinstance(cand.get("from"), dict) and "m" in cand["from"] else None
     if cand.get("k") == "forest":
         ops = cand.get("ops")
         if not isinstance(ops, list) or not all(isinstance(o, dict) and "op" in o for o in ops):
